@@ -15,7 +15,10 @@ RULE = ("Hypothesis-drawn validated histories (forks, multi-input/-output spends
         "accepted blocks into add_block_to_buffer / flush calls (directly and through DiskInterface + DefaultBlockStore) and a "
         "reload after EVERY flush (file closed, new BlockStore; also read through the writing connection); in 30% of the histories "
         "another thread buffers the next block while a flush is inside its SQL write (schedule injection at that point); through "
-        "the disk interface some batches are buffered, dropped from the buffer (as a rollback does) and handed over again. Oracle: "
+        "the disk interface some batches are buffered, dropped from the buffer (as a rollback does) and handed over again; in 30% a "
+        "flush fails at a drawn SQL statement (disk full, injected below the store) and the process restarts: every block of the "
+        "earlier flushes must be there byte for byte and no torn block may be read. Histories include rewards with no, several "
+        "and zero-valued outputs and conflicting spends of one output on competing branches. Oracle: "
         "read_blocks_from_disk() == written blocks + genesis: same id set, byte-identical serialize(), id == sha256d(header), "
         "parents before children; rebuilding as scripts.utils.read_chain_from_disk does raises nowhere, gives reference-equal "
         "unspent maps at every block and a head of the live height. A mismatch is classified against a deliberately faulty "
@@ -121,6 +124,38 @@ def execute(case):
                 store.write_blocks_to_disk = write_and_interleave
                 racer = (late, state, orig_write)
                 info["interleaved_appends"] = info.get("interleaved_appends", 0) + 1
+            if case.get("disk_full") and case["disk_full"][0] == info["flushes"] and racer is None:
+                # fault injection: the disk is full at the k-th SQL statement of THIS flush and the process dies on the error;
+                # at the next start the store must hold every block of the earlier flushes byte for byte and no torn block
+                real = store.connection
+                store.connection = chainexec.FaultyConnection(real, case["disk_full"][1])
+                try:
+                    store.flush_blocks_to_disk()
+                    info["disk_full_not_reached"] = 1
+                except chainexec.DiskFull:
+                    info["disk_full_faults"] = info.get("disk_full_faults", 0) + 1
+                except Exception as e:
+                    fail("flush", "flush-raised:" + exc_sig(e), "flush with a full disk raised %r" % (e,))
+                store.connection = real
+                store.close()
+                with env.quiet():
+                    store = BS.BlockStore(path)
+                try:
+                    got_list = list(store.read_blocks_from_disk())
+                except Exception as e:
+                    fail("read", "read-raised-after-failed-flush:" + exc_sig(e), "after a flush that failed on a full disk and a restart, read_blocks_from_disk raised %r" % (e,))
+                    break
+                handed = {x.id(): x.raw() for x in written + batch}
+                got = {g.hash(): g.serialize() for g in got_list}
+                torn = [k for k in got if k not in handed or got[k] != handed[k]]
+                lost = [x.id() for x in written if x.id() not in got]
+                explained = info["shared_ids"] and all(faulty_model(written + batch).get(k) == got[k] for k in torn)
+                if torn and not explained:
+                    fail("read", "torn-block-after-failed-flush", "after a flush that failed on a full disk (statement %d) and a restart, %d stored block(s) differ from every block that was handed to the store" % (
+                        case["disk_full"][1], len(torn)))
+                if lost:
+                    fail("read", "flushed-block-lost-after-failed-flush", "after a later flush failed on a full disk, %d block(s) of EARLIER, completed flushes are gone" % len(lost))
+                break
             try:
                 if case.get("via") == "disk_interface":
                     di.flush_blocks()
@@ -240,11 +275,14 @@ def run(shard, tier, seed):
             batches.append(k)
             left -= k
         case.update(batches=batches, via=via, form=form, interleave=rnd.random() < 0.35, interleave_after=rnd.random() < 0.5, resave=rnd.random() < 0.4)
+        if rnd.random() < 0.3:
+            case.update(disk_full=[rnd.randrange(len(batches)), rnd.randrange(0, 6)], interleave=False)
         try:
             fails, info = execute(case)
         except env.HarnessError as e:
             res.error(str(e))
             return
+        res.count("disk_full_faults", info.get("disk_full_faults", 0))
         res.evaluations += info["flushes"]
         res.count("histories")
         res.count("histories_shared_ids_switch" if shared else "histories_shared_ids_excluded")
